@@ -125,10 +125,12 @@ def run():
     base = [["-part", "gen"], ["-part", "files"], ["-part", "rand"]]
     batches = [("base", base)]
     if thorough:
-        batches += [("gen4-%d" % k, [["-part", "gen", "-gen", "base,4,full,1,%d,4" % k]]) for k in range(4)]
-        batches += [("mid5", [["-part", "gen", "-gen", "mid,5,light,6,0,1"]]),
+        # every text of 4 classes over the 20-class alphabet: light runs for all, full runs for 1 in 8
+        batches += [("gen4-%d" % k, [["-part", "gen", "-gen", "base,4,light,1,%d,4" % k]]) for k in range(4)]
+        batches += [("gen4-full", [["-part", "gen", "-gen", "base,4,full,8,0,1"]]),
+                    ("mid5", [["-part", "gen", "-gen", "mid,5,light,12,0,1"]]),
                     ("small5", [["-part", "gen", "-gen", "small,5,light,1,0,1"]]),
-                    ("small6", [["-part", "gen", "-gen", "small,6,light,6,0,1"]])]
+                    ("small6", [["-part", "gen", "-gen", "small,6,light,12,0,1"]])]
     for part, arglists in batches:
         trace = os.path.join(vlib.scratch(), "parse-%s.ndjson" % part)
         with open(trace, "wb") as o:
@@ -159,11 +161,12 @@ def run():
         "exhaustive": True,
         "rule": "gen: every text over the 20-class alphabet up to length L1 x {whole, every single cut, every pair of cuts} "
                 "x 12 histories (+ Reset;NewInput loading for 3 of them); every structured text of a 9-class alphabet of "
-                "length L3 (thorough also: 14-class alphabet, length 5, 1 in 6; 9-class, length 6, 1 in 6) x all cuts on a "
+                "length L3 (thorough also: 14-class alphabet, length 5, 1 in 12; 9-class, length 6, 1 in 12; every text of "
+                "4 classes over the 20-class alphabet, 1 in 8 of them with the full product) x all cuts on a "
                 "fresh parser + every history whole and with one cut set; "
                 "files: every tests/*.zy x every history whole + seeded single cuts, pairs and multi-cuts x random history; "
                 "rand: seeded random class texts and corpus windows x random multi-cuts x random history "
-                "(quick: L1 = 3, L3 = 4; thorough: L1 = 4, L3 = 4..5). A Go panic escaping the parser is recorded "
+                "(quick: L1 = 3, L3 = 4; thorough: L1 = 3 (+ 1 in 8 of length 4), L3 = 4..5). A Go panic escaping the parser is recorded "
                 "and the item is not judged (C01).",
     }
     return flow.finish(out, "model_checking", cov, [
